@@ -407,6 +407,8 @@ public:
   static bool keyval(Doc& d, uint64_t seed, long shape) {
     Rng r(seed);
     KeyvalModel& m = d.kv;
+    // bit 20 (set by no earlier plan): blanks around '=' as in hand-written descriptions, drawn from an own stream
+    bool blanks = (shape >> 20) & 1; shape &= (1L << 20) - 1; Rng rb(seed ^ 0x626c616e6b73ULL);
     size_t n = static_cast<size_t>(shape % 7); bool sp = (shape / 7) & 1; m.nested2 = (shape / 14) & 1; bool bare = n == 0 && ((shape / 28) & 1);
     m.name = word(r, "GammaHKYTNx", 1, 6) + std::to_string(r.below(90));
     std::string text = m.name;
@@ -416,7 +418,8 @@ public:
         std::string k = word(r, "abcknpq", 1, 4) + std::to_string(i), v = kvValue(r, 0, m.nested2 ? 2 : 1);
         m.args[k] = v;
         if (i) text += sp ? ", " : ",";
-        text += k + "=" + v;
+        if (blanks) { static const char* EQ[] = {"=", " = ", " =", "= "}; text += k + EQ[rb.below(4)] + v; }
+        else text += k + "=" + v;
       }
       text += ")";
     }
